@@ -48,7 +48,31 @@
 #define CBOR_MT_TAG 0xC0
 #define CBOR_MT_7 0xE0
 
-#define C10_RESET() do { GHOST_RESET(); } while (0)
+/* ------------------------------------------------------------------ replay variables (DESIGN 3.5)
+ * The driver extracts the LAST value of every object field from the counterexample trace, i.e. the post-state of the
+ * encoder / decoder object, and prints floating-point arguments with seven digits.  The pre-state the native replay
+ * (replay/cbor_replay.c) needs is therefore recorded in ghost scalars that the harness leaves arbitrary and a
+ * ghost-guarded requires clause ties to the input (r_len == encoder->encoded_buf.len, ...): the ghosts are free, so the
+ * clause restricts no input; the guard r_who is set by the harness of the unit only (R_NONE after C10_RESET), and at a
+ * replaced call site inside the function under proof the object is still in its pre-state, so the clause holds there.
+ * Scalars that a harness owns (the double argument's bit pattern, the length of a string argument, the operands of the
+ * rt_* units) are plain assignments in the harness. */
+enum { R_NONE = 0, R_ENC = 1, R_DEC = 2 };
+int r_who;
+size_t r_len, r_cap;          /* encoder: fill level and capacity before the call */
+uint64_t r_bits;              /* bit pattern of the float / double argument */
+size_t r_from_len;            /* length of the string argument */
+size_t r_src_len;             /* decoder: bytes left, sticky error, cached element (type; the union's first 8 bytes: integer */
+int r_err, r_ctype;           /*   value / boolean / double bits / string length) and the first nine input bytes (the    */
+uint64_t r_cu64;              /*   longest head) before the call                                                         */
+uint8_t r_b0, r_b1, r_b2, r_b3, r_b4, r_b5, r_b6, r_b7, r_b8;
+uint64_t r_v, r_v2;           /* rt_* units: operands */
+#define R_ENC_ON() do { r_who = R_ENC; r_len = nondet_size_t(); r_cap = nondet_size_t(); } while (0)
+#define R_DEC_ON() do { r_who = R_DEC; r_src_len = nondet_size_t(); r_err = nondet_int(); r_ctype = nondet_int(); r_cu64 = nondet_u64(); \
+                        r_b0 = nondet_u8(); r_b1 = nondet_u8(); r_b2 = nondet_u8(); r_b3 = nondet_u8(); r_b4 = nondet_u8(); \
+                        r_b5 = nondet_u8(); r_b6 = nondet_u8(); r_b7 = nondet_u8(); r_b8 = nondet_u8(); } while (0)
+
+#define C10_RESET() do { GHOST_RESET(); r_who = R_NONE; } while (0)
 
 /* ------------------------------------------------------------------ libcbor leaf encoders (internal/encoders.c, encoding.c)
  * Each writes a head into [buffer, buffer + buffer_size) iff it fits and returns the number of bytes, 0 otherwise
@@ -98,6 +122,7 @@ LEAF_CONTRACT((size_t)1, value)
 #define ENC_APPEND_CONTRACT_F(N, RES, INPLACE)                                                                         \
     __CPROVER_requires(ENC_OK(encoder))                                                                                \
     __CPROVER_requires(g_on ==> g_k < EB(encoder).len && g_old == EB(encoder).buffer[g_k])                             \
+    __CPROVER_requires(r_who == R_ENC ==> r_len == EB(encoder).len && r_cap == EB(encoder).capacity) /* replay only */ \
     __CPROVER_assigns(EB(encoder))                                                                                     \
     INPLACE                                                                                                            \
     __CPROVER_frees(ENC_ROOM(encoder) < (RES) : EB(encoder).buffer)                                                    \
@@ -266,6 +291,14 @@ ENC_STRING_CONTRACT(CBOR_MT_TEXT)
 #define DCC(d) ((d)->cached_context)
 #define DEC_TYPE_IS_STRING(t) ((t) == AWS_CBOR_TYPE_BYTES || (t) == AWS_CBOR_TYPE_TEXT)
 #define DEC_OK(d) (__CPROVER_is_fresh((d), sizeof(*(d))) && CUR_FIELDS_OK(&(d)->src))
+/* replay only (see "replay variables" above): ties the free ghosts to the decoder's pre-state */
+#define DEC_REPLAY_BYTE(d, i, r) ((d)->src.len > (i) ==> (r) == (d)->src.ptr[i])
+#define DEC_REPLAY_REQ(d)                                                                                              \
+    __CPROVER_requires(r_who == R_DEC ==> r_src_len == (d)->src.len && r_err == (d)->error_code &&                     \
+                       r_ctype == (int)DCC(d).type && r_cu64 == DCC(d).u.unsigned_int_val)                             \
+    __CPROVER_requires(r_who == R_DEC ==> DEC_REPLAY_BYTE(d, 0, r_b0) && DEC_REPLAY_BYTE(d, 1, r_b1) && DEC_REPLAY_BYTE(d, 2, r_b2) && \
+                       DEC_REPLAY_BYTE(d, 3, r_b3) && DEC_REPLAY_BYTE(d, 4, r_b4) && DEC_REPLAY_BYTE(d, 5, r_b5) &&    \
+                       DEC_REPLAY_BYTE(d, 6, r_b6) && DEC_REPLAY_BYTE(d, 7, r_b7) && DEC_REPLAY_BYTE(d, 8, r_b8))
 /* the cached element carries exactly what the reader-side spec sees at p (type, and the value that belongs to it) */
 #define DEC_CACHE_IS(d, p)                                                                                             \
     (DCC(d).type == CBOR_IN_TYPE(p) &&                                                                                 \
@@ -290,6 +323,7 @@ ENC_STRING_CONTRACT(CBOR_MT_TEXT)
  * The input bytes are never written (not in the assigns clause). */
 static int s_cbor_decode_next_element(struct aws_cbor_decoder *decoder)
 __CPROVER_requires(DEC_OK(decoder) && decoder->error_code == 0 && DCC(decoder).type == AWS_CBOR_TYPE_UNKNOWN)
+DEC_REPLAY_REQ(decoder)
 __CPROVER_assigns(decoder->src, decoder->cached_context, decoder->error_code, g_last_error, g_raise_count)
 __CPROVER_ensures(RET == AWS_OP_SUCCESS || RET == AWS_OP_ERR)
 __CPROVER_ensures((RET == AWS_OP_SUCCESS) == CBOR_IN_OK(OLD(decoder->src.ptr), OLD(decoder->src.len)))
@@ -326,6 +360,7 @@ __CPROVER_ensures(1)
      PEQ((d)->src.ptr, OLD((d)->src.ptr) + CBOR_IN_ELEMLEN(OLD((d)->src.ptr))))
 #define DEC_POP_CONTRACT(EXPECTED, OUT_OLD, OUT_IN)                                                                    \
     __CPROVER_requires(DEC_OK(decoder))                                                                                \
+    DEC_REPLAY_REQ(decoder)                                                                                            \
     __CPROVER_requires(__CPROVER_is_fresh(out, sizeof(*out)))                                                          \
     __CPROVER_assigns(g_last_error, g_raise_count)                                                                     \
     __CPROVER_assigns(decoder->error_code == 0 : DCC(decoder).type, *out)                                              \
@@ -385,6 +420,7 @@ DEC_POP_STR(text_val, AWS_CBOR_TYPE_TEXT);
 /* peek: same three situations; never empties the cache */
 int aws_cbor_decoder_peek_type(struct aws_cbor_decoder *decoder, enum aws_cbor_type *out_type)
 __CPROVER_requires(DEC_OK(decoder))
+DEC_REPLAY_REQ(decoder)
 __CPROVER_requires(__CPROVER_is_fresh(out_type, sizeof(*out_type)))
 __CPROVER_assigns(g_last_error, g_raise_count)
 __CPROVER_assigns(decoder->error_code == 0 : *out_type)
@@ -409,6 +445,7 @@ __CPROVER_ensures(OLD(decoder->error_code) == 0 && OLD(DCC(decoder).type) == AWS
 /* skip exactly one element (not its children): the cached one if there is one, else the next in the input */
 int aws_cbor_decoder_consume_next_single_element(struct aws_cbor_decoder *decoder)
 __CPROVER_requires(DEC_OK(decoder))
+DEC_REPLAY_REQ(decoder)
 __CPROVER_assigns(g_last_error, g_raise_count)
 __CPROVER_assigns(decoder->error_code == 0 : DCC(decoder).type)
 __CPROVER_assigns(decoder->error_code == 0 && DCC(decoder).type == AWS_CBOR_TYPE_UNKNOWN : decoder->src, decoder->cached_context, decoder->error_code)
@@ -427,6 +464,7 @@ __CPROVER_ensures(OLD(decoder->error_code) == 0 && OLD(DCC(decoder).type) == AWS
 
 size_t aws_cbor_decoder_get_remaining_length(const struct aws_cbor_decoder *decoder)
 __CPROVER_requires(DEC_OK(decoder))
+__CPROVER_requires(r_who == R_DEC ==> r_src_len == decoder->src.len)
 __CPROVER_assigns()
 __CPROVER_ensures(RET == decoder->src.len)
 ;
